@@ -533,3 +533,31 @@ H("C18", "matrix_card", "c18_proof_agreement", timeout=3600, oracle_features=["c
   inputs="2x2 card, digit count 1..2, challenge count 1..2, seed, session key, card contents, position of one mistyped digit: any",
   asserts="proof of the printed digits at the challenged cells is accepted; a proof from a sequence with one digit changed is refused",
   bounds="2x2 card; RC4 keystream = uninterpreted function of MD5(seed | session key); generate_coordinates uninterpreted (distinct on-card cells)", assumes=[HASH_ASSUME, "Rc4::new / apply_keystream replaced by an uninterpreted keystream (same key => same keystream); explicit collision-freeness of the recorded HMAC queries"], **_MC)
+
+# ------------------------------------------------------------------------------------------------
+# MANIFEST texts
+# ------------------------------------------------------------------------------------------------
+_LT = {
+ "C01": "Bounded model checking of the whole login exchange through the public API with the arithmetic/hash leaves uninterpreted and the SRP-6 identity (Lemma L) assumed over the specification terms, plus unit harnesses for padding, case handling and the interleave over ALL 32-byte secrets. Right level: the property is 'plumbing is correct for every input class', which the solver decides; the number theory is stated as an assumption.",
+ "C02": "Bounded model checking of both accept/reject decisions over all 160 proof bits from arbitrary object states with callees uninterpreted; decides 'accepted iff equal to the value determined by the record and the exchanged keys' for every input.",
+ "C03": "One harness per handshake function: the value produced equals the WoW-SRP6 formula as a term over uninterpreted SHA-1 / modpow / mul / add / rem for ALL arguments (incl. every zero-byte class of S and any announced group), plus caller harnesses showing the public API feeds the right values to the leaves.",
+ "C04": "The acceptance set is decided exactly over all 2^256 encodings (SAT), for the public constructor, the server's own key and the client's key under any announced modulus.",
+ "C05": "One reconnect attempt from an arbitrary session state is an inductive step covering all histories: accept iff proof matches the message over the current challenge; the challenge is a fresh draw afterwards on both outcomes.",
+ "C06": "For each of the three expansion modules: the client's message layout and the server's 160-bit decision, all names/keys/seeds symbolic.",
+ "C07": "Step lemma from every cipher state plus 'n-byte call = n steps' for all n <= 48 and a 260-byte call, which by induction gives all streams and chunkings.",
+ "C08": "As C07 over the 20-byte key, plus key derivation = one HMAC(seed, session key) query for both halves.",
+ "C09": "RC4 step lemma from every 256-byte state; call = steps within stated bounds; key derivation, drop-1024 and direction wiring by recording stubs. KSA for all keys is out of reach and stated as outside the claim.",
+ "C10": "All 2^23 sizes x 2^16 opcodes from every paired cipher state (keystream abstracted as a symbolic pad), both client decode paths, inductive over header sequences.",
+ "C11": "Every header entry point against the raw operation on the wire layout from arbitrary states; Read/Write wrappers under nondeterministic fragmentation, interruption and failure at every offset (<= 8 I/O calls).",
+ "C12": "Frame property and split/clone/unsplit identities from arbitrary states; unsplit decided over all pairs of 40-byte keys. Thread schedules are argued from ownership with a syntactic guard (Kani has no concurrency).",
+ "C13": "All UTF-8 strings up to 17 (thorough 24) bytes: accept set, normalisation, error kinds, constructor agreement, Eq/Ord/Hash/Display.",
+ "C14": "Rust's panic conditions (bounds, overflow, unwrap, explicit asserts) are proof obligations in every harness; C14 collects the harnesses whose inputs are exactly the peer-controlled bytes over the full domain (size contracts only on arithmetic results).",
+ "C15": "Dataflow: every documented random value equals, byte for byte, a fresh RNG draw of full width made during that call (RNG modelled as unconstrained). Statistical quality is outside any solver's reach and stated so.",
+ "C16": "Layout is a permutation for all 2^32 seeds and equals the factorial-base decode for every residue mod 10!; digit extraction for all 2^32 PINs; hash message layout; 160-bit verification decision.",
+ "C17": "All ways of splitting a buffer of <= 8 (thorough 24) bytes over the five file arguments give the same HMAC and SHA-1 queries as the single-buffer function.",
+ "C18": "Cell addressing for ALL card shapes up to 255 cells x 1..4 digits (pointer identity with the printed chunk); coordinate distinctness and round bounds for three card shapes; client/server proof agreement on a 2x2 card with RC4 and coordinate generation uninterpreted.",
+}
+for _k, _v in _LT.items():
+    if _k in PROPERTIES:
+        PROPERTIES[_k]["level_text"] = _v
+PROPERTIES["C19"] = {"not_applicable": "the srp-fast-math configuration is rug -> GMP (C code behind FFI): Kani cannot execute it symbolically, and gmp-mpfr-sys cannot even be built in this sandbox (no m4); comparing the two cfg arms against each other's contract would say nothing about GMP itself"}
